@@ -214,6 +214,26 @@ def gateway(ctx) -> None:
         ctx.check(acc_h == {'accept'}, 'C19.gateway', ep, f'the accepted encodings derive from the Accept header only (found {sorted(acc_h)})', c, key='endpoint:accept')
     parses = [c for c in core.calls_in(ep.node) if core.call_tail(c) == 'parse']
     ctx.check(len(parses) == 2 and all(len(headers(c)) == 1 for c in parses), 'C19.gateway', ep, 'each header is parsed on its own (one Encoding.parse per header)', ep.node, key='endpoint:parse-per-header')
+    # ... and is parsed as the client wrote it: the value reaching Encoding.parse is the header value itself (through
+    # temporaries, defaults and conditionals), not something computed from it (lower-casing folds the case-sensitive option
+    # values, stripping/splitting re-tokenises what cgi.parse_header is there to tokenise)
+    def as_stated(e: ast.AST, seen=()) -> bool:
+        if isinstance(e, ast.Name):
+            if e.id in seen:
+                return True
+            return e.id in defs and all(as_stated(d, seen + (e.id,)) for d in defs[e.id] if not (isinstance(d, ast.Call) and core.call_tail(d) == 'parse'))
+        if isinstance(e, ast.Call) and isinstance(e.func, ast.Attribute) and e.func.attr == 'get' and core.src(e.func.value).endswith('.headers'):
+            return all(isinstance(a, (ast.Constant, ast.Attribute, ast.Name)) for a in e.args)
+        if isinstance(e, ast.Subscript) and core.src(e.value).endswith('.headers'):
+            return True
+        if isinstance(e, ast.IfExp):
+            return as_stated(e.body, seen) and as_stated(e.orelse, seen)
+        if isinstance(e, ast.BoolOp):
+            return all(as_stated(v, seen) for v in e.values)
+        return isinstance(e, (ast.Constant, ast.Attribute))
+
+    for c in parses:
+        ctx.check(len(c.args) == 1 and as_stated(c.args[0]), 'C19.gateway', ep, f'the header value is parsed as the client stated it, not a transformation of it (`{core.src(c.args[0])[:80]}`)', c, key='endpoint:as-stated')
     un = [h for h in ast.walk(ep.node) if isinstance(h, ast.ExceptHandler) and h.type is not None and 'Unsupported' in core.src(h.type)]
     ctx.check(len(un) == 1 and any('415' in core.src(x) for x in un[0].body), 'C19.gateway', ep, 'the unsupported-encoding error reaches the client as 415', ep.node, key='endpoint:415')
 
